@@ -142,9 +142,10 @@ type (
 	ESlice struct{ X, Lo, Hi Expr } // Lo/Hi may be nil
 	EOld   struct{ X Expr }
 	EQuant struct {
-		Forall bool
-		Vars   []QVar
-		Body   Expr
+		Forall  bool
+		Vars    []QVar
+		Body    Expr
+		Witness Expr // exists v T by w :: body  -- when the formula is to be proved, body[v := w] is proved instead
 	}
 	ECond struct{ C, A, B Expr }
 	// EType is a type expression used as an argument of hastype/implements/as
@@ -362,9 +363,14 @@ func (sp *specParser) primary() Expr {
 				}
 				break
 			}
+			var wit Expr
+			if pk := sp.peek(); pk.k == tIdent && pk.s == "by" && t.s == "exists" && len(vars) == 1 {
+				sp.p++
+				wit = sp.expr(0)
+			}
 			sp.expect("::")
 			body := sp.expr(0)
-			return &EQuant{t.s == "forall", vars, body}
+			return &EQuant{t.s == "forall", vars, body, wit}
 		}
 		if sp.isOp("(") {
 			sp.p++
